@@ -64,11 +64,16 @@ pub const PROFILE: Profile = Profile {
 
 pub fn run(run: &mut Run) {
     crate::shadow_check::run(&PROFILE, run);
+    // baton phase: two mutator threads requesting concurrently (props/c11b.rs)
+    crate::props::c11b::run(run);
     run.assume("one GC worker in the deciding runs; schedules quantifier: see C14/C15 (baton)");
     run.assume("'no stop-the-world packet after resume' is observed through VM upcalls (scan/trace/weak-ref/copy events), not through packet events");
 }
 
 pub fn replay(case: &Value, run: &mut Run) {
+    if crate::props::c11b::is_case(case) {
+        return crate::props::c11b::replay(case, run);
+    }
     crate::shadow_check::replay(&PROFILE, case, run);
 }
 
